@@ -8,7 +8,7 @@ import (
 )
 
 func init() {
-	register("C06", "R1", 3, "the client's Proxy-Authorization never leaves: it is in the hop-by-hop table, the upstream CONNECT header is a clone of the request header after the modifiers ran (C04.R1 orders modifyRequest before every sink), and nothing copies the incoming value back", c06r1)
+	register("C06", "R1", 4, "the client's Proxy-Authorization never leaves: it is in the hop-by-hop table, the upstream CONNECT header is a clone of the request header after the modifiers ran (C04.R1 orders modifyRequest before every sink), and nothing copies the incoming value back", c06r1)
 	register("C06", "R2", 4, "who may write credential headers: Proxy-Authorization is written only on the CONNECT request to the upstream proxy (from the proxy URL's userinfo) and by the Kerberos upstream injector (plain http, non-CONNECT, proxy selected); Authorization only by setBasicAuth and the SPNEGO injector", c06r2)
 	register("C06", "R3", 3, "never override the client: SetBasicAuth runs only when the request has no Authorization and a credentials entry matches the request URL, with that entry's user and password", c06r3)
 	register("C06", "R4", 9, "lookup precedence: exact host:port, then *:port, then host:*, then *:*; the constructor files entries under the same keys the lookup reads; MatchURL supplies 80/443 by scheme", c06r4)
@@ -56,6 +56,24 @@ func hopByHopTable(r *R) (map[string]bool, ssa.Instruction) {
 func c06r1(r *R) {
 	tab, at := hopByHopTable(r)
 	r.check(tab["Proxy-Authorization"], "hopByHopHeaders[Proxy-Authorization]", posOf(at), "client credentials for this hop are removed before forwarding", "Proxy-Authorization is not in the hop-by-hop table: the client's proxy credentials would be forwarded")
+	// stripped for every request, whatever its method
+	hm := r.method(mpkg+"/header", "hopByHopModifier", "ModifyRequest")
+	hps, _ := enumPaths(hm, 64, 1)
+	okAll := len(hps) > 0
+	for _, p := range hps {
+		if p.eventIndex(0, "call", eq("martian/header.removeHopByHopHeaders($1.Header)")) < 0 {
+			okAll = false
+		}
+	}
+	r.check(okAll, "hopByHopModifier.ModifyRequest#unconditional", hm.Pos(), "hop-by-hop removal runs on every path (CONNECT included: its header is cloned to an upstream proxy)", "hop-by-hop removal is skipped for some requests: a client's Proxy-Authorization on such a request is cloned into the CONNECT sent upstream")
+	// nobody else removes the client's credential instead (two sites that must not disagree)
+	for _, fn := range requestPathFuncs(r) {
+		for _, w := range messageWrites(fn) {
+			if w.what == "header:Del Proxy-Authorization" {
+				r.bad(fname(fn)+"#Del(Proxy-Authorization)", w.at.Pos(), "Proxy-Authorization is removed here instead of by the hop-by-hop modifier: configurations that do not run this code forward it")
+			}
+		}
+	}
 	ch := r.method(mpkg, "Proxy", "connectHTTP")
 	n := 0
 	eachInstr(ch, func(ins ssa.Instruction) {
